@@ -374,7 +374,7 @@ func qdScenario(cs qdCase) *mc.Scenario {
 								strings.ToUpper(want), name, waiting, w.id, exp, history)
 						}
 						if w.retClock != t0 {
-							fail("C13:grant-late", "waiter %d was granted at %d, release was at %d", w.id, w.retClock, t0)
+							fail("C10:grant-late", "waiter %d was granted at %d, release was at %d", w.id, w.retClock, t0)
 						}
 					}
 					remove(w.id)
